@@ -19,10 +19,12 @@ fn static_prop(id: &str) -> &'static str {
 pub fn corpus_stage(ctx: &Arc<Ctx>, prop: &Prop) {
     let pid = static_prop(prop.id);
     for t in targets::targets_for(prop.id) {
-        let files = targets::load_corpus(&ctx.root, t);
+        let mut files = targets::load_corpus(&ctx.root, t);
         if files.is_empty() {
             continue;
         }
+        // short inputs first
+        files.sort_by_key(|f| f.bytes.len());
         let n = files.len();
         ctx.run_enumerated("corpus-replay", "corpus", files, None, |c: &CorpusCase| targets::check_corpus_case(pid, c, ctx).0);
         ctx.note(format!("replayed {} committed corpus files of fuzz target {}", n, t));
